@@ -3,7 +3,7 @@
 EXTENDS GenShapes, TLC, Json
 CONSTANTS MCDeep, MCLong
 VARIABLES sh, M, Mi, obj, tf, dg, pn, pc, hist, viol, aux
-MCShapes == GenMapShapes
+MCShapes == GenMapShapesAll
 MCProps == {"C01", "C02"}
 ASSUME PrintT("SHAPES " \o ToJson(MCShapes))
 INSTANCE Session WITH Shapes <- MCShapes, Script <- <<>>, Deep <- MCDeep, Props <- MCProps, ObjMode <- "all", RawMode <- "plans", EmptyMode <- "plain"
